@@ -690,7 +690,7 @@ impl<'a> Gen<'a> {
             7 => Step::ReadOnlyOpen,
             8 => Step::Audit,
             9 => Step::DropDbDuringTxn { txn: self.txn() },
-            _ => Step::FailingOpen { kind: self.rng.below(9) as u8, arg: self.rng.next() },
+            _ => Step::FailingOpen { kind: self.rng.below(10) as u8, arg: self.rng.next() },
         }
     }
 
